@@ -24,7 +24,7 @@ ASSUMPTIONS = [
 REQUIRED_MONITORS = ["C11.predict_proba-contract", "C11.predict-decision-contract", "C11.uniform-without-labels"]
 REGIMES = ["cold", "oneclass", "unobserved", "half", "random", "separated"]
 CLASS_KINDS = ["range", "numbers", "strings"]
-ORDER_CHECK = {"pwc", "pwc_knn", "sk_nb", "sk_tree", "sk_knn", "sk_lr"}
+ORDER_CHECK = {"pwc", "sk_nb", "sk_tree", "sk_knn", "sk_lr"}   # not pwc_knn: its nearest neighbours may all be unlabelled
 
 
 def gen_cases(tier, seed):
@@ -189,7 +189,9 @@ def run_case(desc):
                     inner = inner.estimator_
                 if inner is not clf and hasattr(inner, "predict_proba") and not hasattr(inner, "missing_label"):
                     try:     # rounding of the wrapped third-party estimator itself
-                        atol += float(np.abs(np.asarray(inner.predict_proba(Q), dtype=float).sum(axis=1) - 1).max())
+                        dev = np.abs(np.asarray(inner.predict_proba(Q), dtype=float).sum(axis=1) - 1)
+                        if np.isfinite(dev).any():      # NaN rows of the wrapped estimator trigger the documented fall-back
+                            atol += float(np.nanmax(dev[np.isfinite(dev)]))
                     except Exception:
                         pass
                 ok = _check_proba(P, len(Q), K, add, what, atol=atol)
